@@ -161,6 +161,40 @@ theorem qam_constellation (k : Nat) (hk : 1 ≤ k) :
   rw [(hp.map _).sum_eq, qam_natural_energy _ hL]
   push_cast; ring
 
+/-- After ANY history of table changes (`setPhaseOffset`), modulations and demodulations, a
+    demodulation is nearest-point detection against the table currently in force (the object
+    keeps no derived state that could go stale; the correspondence replays such histories
+    on the real object). -/
+theorem demod_after_history {α : Type} [Field α] [LinearOrder α] [IsStrictOrderedRing α]
+    (t₀ : List (α × α)) (h : List (ModOp α)) (r : α × α) :
+    (modRun t₀ (h ++ [ModOp.demodulate r])).1 = currentTable t₀ h ∧
+    (modRun t₀ (h ++ [ModOp.demodulate r])).2.getLast? = some (ModOut.index (demod (currentTable t₀ h) r)) := by
+  induction h generalizing t₀ with
+  | nil => simp [modRun, modStep, currentTable]
+  | cons op ops ih =>
+    cases op with
+    | setTable t =>
+      have := ih t
+      simp only [List.cons_append, modRun, modStep, currentTable]
+      refine ⟨this.1, ?_⟩
+      rw [List.getLast?_cons_of_ne_nil]
+      · exact this.2
+      · intro hnil; rw [hnil] at this; simp at this
+    | demodulate r' =>
+      have := ih t₀
+      simp only [List.cons_append, modRun, modStep, currentTable]
+      refine ⟨this.1, ?_⟩
+      rw [List.getLast?_cons_of_ne_nil]
+      · exact this.2
+      · intro hnil; rw [hnil] at this; simp at this
+    | modulate i =>
+      have := ih t₀
+      simp only [List.cons_append, modRun, modStep, currentTable]
+      refine ⟨this.1, ?_⟩
+      rw [List.getLast?_cons_of_ne_nil]
+      · exact this.2
+      · intro hnil; rw [hnil] at this; simp at this
+
 /-- Tie to the source: the grid coordinates, the storage index, the average-energy
     expression and the PSK phase expression re-translated from `fundamental.py` on every run
     are the ones of the model the constellation theorems are about (BPSK literal = `[1,-1]`). -/
